@@ -100,6 +100,26 @@ class Evaluator:
                     return v & 0xFF
                 return v
             raise Unknown("cast of %r" % (v,))
+        if k == "constx" and isinstance(e[1], str) and e[1].startswith('"') and str(e[2]).endswith("str"):
+            import ast
+            try:
+                return ("str", ast.literal_eval(e[1]))
+            except Exception:
+                raise Unknown("string constant %s" % e[1])
+        if k == "cindex":
+            v = self.ev(e[1], args, depth)
+            if isinstance(v, tuple) and v[0] in ("bytes", "str"):
+                data = v[1].encode() if v[0] == "str" else v[1]
+                i = (len(data) - e[2]) if e[3] else e[2]
+                if 0 <= i < len(data):
+                    return data[i]
+                raise Unknown("constant index out of bounds (would panic)")
+            raise Unknown("constant index into %r" % (v,))
+        if k == "subslice":
+            v = self.ev(e[1], args, depth)
+            if isinstance(v, tuple) and v[0] == "bytes":
+                return ("bytes", v[1][e[2]:(len(v[1]) - e[3]) if e[4] else e[3]])
+            raise Unknown("subslice")
         if k == "field":
             return self.field(self.ev(e[1], args, depth), e[2])
         if k == "downcast":
@@ -132,6 +152,8 @@ class Evaluator:
                 return int(not v)
             if e[1] == "Neg":
                 return -v
+            if e[1] == "PtrMetadata" and isinstance(v, tuple) and v[0] in ("bytes", "str"):
+                return len(v[1].encode() if v[0] == "str" else v[1])
             raise Unknown("unary %s" % e[1])
         if k in ("bin", "checked"):
             a, b = self.ev(e[2], args, depth), self.ev(e[3], args, depth)
@@ -173,6 +195,10 @@ class Evaluator:
             if isinstance(v, int):
                 return STD_MODELS[short](v)
             raise Unknown("%s of a non-integer" % short)
+        if "<impl str>::" in name or "str::traits::" in name or "<str as" in name:
+            r = self._str_model(short, name, e, args, depth)
+            if r is not NotImplemented:
+                return r
         if short in ("eq", "ne") and ("PartialEq" in name or "PartialEq" in fnname):
             a, b = argv()
             return int((a == b) == (short == "eq"))
@@ -193,6 +219,47 @@ class Evaluator:
             from common import fn_of
             return self.call(fn_of(body), argv(), depth + 1)
         raise Unknown("call of %s" % name)
+
+    def _str_model(self, short, name, e, args, depth):
+        vals = [self.ev(a, args, depth) for a in e[2]]
+        s0 = vals[0]
+        if not (isinstance(s0, tuple) and s0[0] == "str"):
+            return NotImplemented
+        txt = s0[1]
+
+        def pat(v):
+            if isinstance(v, int):
+                return chr(v)
+            if isinstance(v, tuple) and v[0] == "str":
+                return v[1]
+            raise Unknown("string pattern %r" % (v,))
+        if short == "as_bytes":
+            return ("bytes", txt.encode())
+        if short == "len":
+            return len(txt.encode())
+        if short == "is_empty":
+            return int(not txt)
+        if short == "is_ascii":
+            return int(all(ord(c) < 128 for c in txt))
+        if short == "strip_prefix":
+            p_ = pat(vals[1])
+            return ("opt", ("str", txt[len(p_):])) if txt.startswith(p_) else ("opt", None)
+        if short == "strip_suffix":
+            p_ = pat(vals[1])
+            return ("opt", ("str", txt[:len(txt) - len(p_)])) if p_ and txt.endswith(p_) else ("opt", None)
+        if short == "starts_with":
+            return int(txt.startswith(pat(vals[1])))
+        if short == "ends_with":
+            return int(txt.endswith(pat(vals[1])))
+        if short == "index":
+            r = vals[1]
+            if isinstance(r, tuple) and r[0] == "struct":
+                lo = r[2].get("start", 0)
+                hi = r[2].get("end", len(txt))
+                if not (0 <= lo <= hi <= len(txt)):
+                    raise Unknown("string index out of bounds (would panic)")
+                return ("str", txt[lo:hi])
+        return NotImplemented
 
     def call(self, fn, argvals, depth=0):
         """Evaluate a crate-local loop-free function on concrete/abstract argument values."""
